@@ -112,36 +112,32 @@ func ruleSingleDecision(c *Ctx) {
 		if fd.Body == nil {
 			continue
 		}
+		// `ContinueOnError: other.ContinueOnError` inside an ExpandOptions literal copies the option; it decides nothing
+		copies := map[*ast.SelectorExpr]bool{}
 		ast.Inspect(fd.Body, func(n ast.Node) bool {
-			switch x := n.(type) {
-			case *ast.KeyValueExpr:
-				// composite-literal key: a write, not a read; `ContinueOnError: other.ContinueOnError` is a copy, not a decision
-				if k, ok := x.Key.(*ast.Ident); ok && k.Name == "ContinueOnError" {
-					if se, ok := unparen(x.Value).(*ast.SelectorExpr); ok && c.isOptionField(se, "ContinueOnError") {
-						return false
+			if kv, ok := n.(*ast.KeyValueExpr); ok {
+				if k, ok := kv.Key.(*ast.Ident); ok && k.Name == "ContinueOnError" {
+					if se, ok := unparen(kv.Value).(*ast.SelectorExpr); ok && c.isOptionField(se, "ContinueOnError") {
+						copies[se] = true
 					}
 				}
-				ast.Inspect(x.Value, func(m ast.Node) bool {
-					if se, ok := m.(*ast.SelectorExpr); ok && c.isOptionField(se, "ContinueOnError") {
-						readers[c.funcName(fd)] = se.Pos()
+			}
+			return true
+		})
+		writes := map[*ast.SelectorExpr]bool{}
+		ast.Inspect(fd.Body, func(n ast.Node) bool {
+			if as, ok := n.(*ast.AssignStmt); ok {
+				for _, l := range as.Lhs {
+					if se, ok := unparen(l).(*ast.SelectorExpr); ok {
+						writes[se] = true
 					}
-					return true
-				})
-				return false
-			case *ast.AssignStmt:
-				for _, r := range x.Rhs {
-					ast.Inspect(r, func(m ast.Node) bool {
-						if se, ok := m.(*ast.SelectorExpr); ok && c.isOptionField(se, "ContinueOnError") {
-							readers[c.funcName(fd)] = se.Pos()
-						}
-						return true
-					})
 				}
-				return false
-			case *ast.SelectorExpr:
-				if c.isOptionField(x, "ContinueOnError") {
-					readers[c.funcName(fd)] = x.Pos()
-				}
+			}
+			return true
+		})
+		ast.Inspect(fd.Body, func(n ast.Node) bool {
+			if se, ok := n.(*ast.SelectorExpr); ok && c.isOptionField(se, "ContinueOnError") && !copies[se] && !writes[se] {
+				readers[c.funcName(fd)] = se.Pos()
 			}
 			return true
 		})
